@@ -1,3 +1,6 @@
 import BadsProofs.Lemmas.NumLemmas
 import BadsProofs.Lemmas.FilterLemmas
 import BadsProofs.Props.C17
+import BadsProofs.Lemmas.CtlLemmas
+import BadsProofs.Props.C03
+import BadsProofs.Props.C13
